@@ -42,21 +42,21 @@ theorem every_site_classified (i : Nat) (hi : i < sites.length) : (siteCls i).is
 
 /-- **bracket entries belong to work in progress** (memory is bounded by live work): in every reachable state an entry
     of a bracketed site belongs to an exchange whose function has not returned. -/
-theorem bracket_entries_have_active_owner (evs : List TEvent) (e : Entry) (he : e ∈ (trun evs).entries)
-    (hb : isBracket (siteCls e.site) = true) : e.owner ∉ (trun evs).ended :=
-  (invT_run evs).br e he hb
+theorem bracket_entries_have_active_owner (evs : List TEvent) (hw : WellTimed {} evs) (e : Entry)
+    (he : e ∈ (trun evs).entries) (hb : isBracket (siteCls e.site) = true) : e.owner ∉ (trun evs).ended :=
+  (invT_run evs hw).br e he hb
 
 /-- **quiescent_empty.** After any history, once housekeeping runs at a time `now`: an entry whose exchange has ended
     and whose deadline has passed can only be a live registration (an observation whose registering call succeeded
     and that has not been cancelled).  For every history, every number of exchanges, every interleaving. -/
-theorem quiescent_empty (evs : List TEvent) (now : Int) (e : Entry)
+theorem quiescent_empty (evs : List TEvent) (hw : WellTimed {} evs) (now : Int) (e : Entry)
     (he : e ∈ (trun (evs ++ [.tick now])).entries)
     (hsite : e.site < sites.length)
     (hended : e.owner ∈ (trun (evs ++ [.tick now])).ended)
     (hdead : e.deadline < now) :
     isLive (siteCls e.site) = true ∧ e.owner ∉ (trun (evs ++ [.tick now])).failed ∧
       e.owner ∉ (trun (evs ++ [.tick now])).cancelled := by
-  have inv := invT_run (evs ++ [.tick now])
+  have inv := invT_run (evs ++ [.tick now]) (wellTimed_append evs {} (.tick now) hw (by intro a b c d h; cases h))
   have hcls := every_site_classified e.site hsite
   -- the final tick removed every expiring entry whose deadline has passed
   have hexp : isExpiring (siteCls e.site) = false := by
@@ -71,6 +71,7 @@ theorem quiescent_empty (evs : List TEvent) (now : Int) (e : Entry)
   | some c =>
     cases c with
     | bracket => exact absurd hended (inv.br e he (by rw [hc]; rfl))
+    | handle => exact absurd hended (inv.br e he (by rw [hc]; rfl))
     | bracketExpiring => rw [hc] at hexp; cases hexp
     | expiring => rw [hc] at hexp; cases hexp
     | live =>
@@ -79,7 +80,7 @@ theorem quiescent_empty (evs : List TEvent) (now : Int) (e : Entry)
 
 /-- **Corollary: nothing is retained.** If moreover no live registration is left (every observation failed or was
     cancelled), all exchanges have ended and every deadline has passed, the tables are empty. -/
-theorem quiescent_nothing_retained (evs : List TEvent) (now : Int)
+theorem quiescent_nothing_retained (evs : List TEvent) (hw : WellTimed {} evs) (now : Int)
     (hall : ∀ e ∈ (trun (evs ++ [.tick now])).entries,
       e.site < sites.length ∧ e.owner ∈ (trun (evs ++ [.tick now])).ended ∧ e.deadline < now ∧
       (e.owner ∈ (trun (evs ++ [.tick now])).failed ∨ e.owner ∈ (trun (evs ++ [.tick now])).cancelled)) :
@@ -87,10 +88,30 @@ theorem quiescent_nothing_retained (evs : List TEvent) (now : Int)
   apply List.eq_nil_iff_forall_not_mem.mpr
   intro e he
   obtain ⟨h1, h2, h3, h4⟩ := hall e he
-  have := quiescent_empty evs now e he h1 h2 h3
+  have := quiescent_empty evs hw now e he h1 h2 h3
   rcases h4 with h4 | h4
   · exact this.2.1 h4
   · exact this.2.2 h4
+
+/-- the token-continuation site of `doInternal` in today's source -/
+def lateTok : Nat := (sites.findIdx? (fun s => s.func == "Conn.doInternal" && s.table == "tokenHandlerContainer")).getD 0
+/-- registered, returned (entry removed by the deferred delete), then inserted again on behalf of the ended call -/
+def lateEvs : List TEvent := [.insert lateTok 7 1 0, .finish 1 true, .insert lateTok 7 1 0]
+
+/-- **The hypothesis is needed** (and is what the harness asserts on the real code): one insertion on behalf of an
+    exchange that has already returned — a deferred delete followed by an asynchronous re-insert — leaves a bracket
+    entry behind for ever, whatever housekeeping does. -/
+theorem late_insert_leaks :
+    ¬ WellTimed {} lateEvs ∧ (trun (lateEvs ++ [.tick 1000000])).entries = [⟨lateTok, 7, 1, 0⟩] := by
+  refine ⟨fun h => ?_, by decide +kernel⟩
+  have h3 : (1 : Nat) ∉ (tstep (tstep {} (.insert lateTok 7 1 0)) (.finish 1 true)).ended := h.2.2.1.1
+  exact h3 (by simp [tstep])
+
+/-- **handle_sites_agree.** The two `AsyncPing` registrations are removed by a cancel closure handed to the caller
+    (class `handle`: the model's "return of the exchange" is the invocation of that closure), and the library's own
+    caller of `AsyncPing`, `Client.Ping`, defers it in today's source.  Direct users of `AsyncPing` carry that
+    obligation themselves; it is outside this theorem. -/
+theorem handle_sites_agree : handleSitesAgreeB = true := by decide +kernel
 
 /-- **mutexmap_refcount.** For every history of `Lock`/`Unlock` in which only holders unlock (the code's
     `l := Lock(k); defer l.Unlock()`), `Unlock` never panics and the map holds exactly the keys that somebody holds or
@@ -159,6 +180,8 @@ open CoapVerif.Props.C13
 #print axioms bracket_entries_have_active_owner
 #print axioms quiescent_empty
 #print axioms quiescent_nothing_retained
+#print axioms late_insert_leaks
+#print axioms handle_sites_agree
 #print axioms mutexmap_refcount
 #print axioms mutexmap_empty_when_idle
 #print axioms limiter_idle
